@@ -34,7 +34,9 @@ KeyOwner == {"auth", "other"}                 \* account-id of the account-key; 
 KeyCons  == {"none", "match", "nomatch-type", "nomatch-header"}
 Classes  == {"plain", "timestamped", "noauth"}
 ContentMutations == {"hdr-byte", "body-byte", "signkey-swap", "authority-swap"}
-SigMutations     == {"sig-byte", "wrong-signer"}
+SigMutations     == {"sig-byte", "sig-alias", "wrong-signer"}
+    \* sig-alias: the decoded signature bytes are changed in a field that does not carry signature
+    \* material (OpenPGP packet length octet, MPI bit-count) -- still "changing the decoded signature"
 Mutations == {"none", "sig-reencode"} \cup ContentMutations \cup SigMutations
 
 KeyCfgs == [where : {"trusted", "stored"}, owner : KeyOwner, until : {Until, Inf}, cons : KeyCons]
@@ -53,7 +55,7 @@ Rows == {r \in [key : KeyCfgs, mode : {"now", "earliest"}, clock : Times, cls : 
 HdrKey(r)    == IF r.mut = "signkey-swap" THEN "K2" ELSE "K"          \* sign-key-sha3-384 header
 Authority(r) == IF r.mut = "authority-swap" THEN "other" ELSE "auth"  \* authority-id header
 ContentTag(r) == IF r.mut \in ContentMutations THEN "c1" ELSE "c0"    \* tag of the bytes presented
-Sig(r) == CASE r.mut = "sig-byte" -> <<"garbage", "garbage">>         \* undecodable or altered
+Sig(r) == CASE r.mut \in {"sig-byte", "sig-alias"} -> <<"garbage", "garbage">>   \* undecodable or altered
             [] r.mut = "wrong-signer" -> <<"K2", "c0">>               \* made by another valid key of "auth"
             [] OTHER -> <<"K", "c0">>                                  \* made by K over the original bytes
 Verifies(sig, k, tag) == sig[1] = k /\ sig[2] = tag
